@@ -39,7 +39,10 @@ def extra(ctx):
     cs = lib.run_go(ctx, "multiplex", "TestVerifC13CloseSweep", timeout=900, tag="close_sweep")
     lib.collect_go(ctx, cs)
     ctx.log("close sweep: %d closes on healthy sessions, each with its closing frame decoded from the wire" % cs["stats"].get("closes", 0))
-    return {"evaluations": g["evaluations"] + s["evaluations"] + cs["evaluations"], "close_sweep_closes": cs["stats"].get("closes", 0), "distinct_nontrivial": g["distinct_nontrivial"] + s["distinct_nontrivial"],
+    lf = lib.run_go(ctx, "multiplex", "TestVerifC13LateFrame", timeout=600, tag="late_frame")
+    lib.collect_go(ctx, lf)
+    ctx.log("late frames for closed streams: %d scenarios, %d violations" % (lf["evaluations"], len(lf.get("violations", []))))
+    return {"evaluations": g["evaluations"] + s["evaluations"] + cs["evaluations"] + lf["evaluations"], "close_sweep_closes": cs["stats"].get("closes", 0), "distinct_nontrivial": g["distinct_nontrivial"] + s["distinct_nontrivial"],
             "samples": g["samples"][:1] + s["samples"][:1], "traces": s["evaluations"] if ok else 0,
             "wire_frames_validated": s["stats"].get("wire_frames", 0), "gate_rounds": g["stats"].get("gate_rounds", 0),
             "gate_second_sender_reached": g["stats"].get("second_sender_reached_gate", 0)}
@@ -52,7 +55,9 @@ def run(ctx):
                                                                 "FEAT": '"swrite","close"'}, tag="mc_seq", timeout=1800), "Mux SeqStep")
     ctx.log("mc SeqStep/NonceInv: %d distinct" % r.distinct)
     gens = [("seq_bfs", C(nc=2, ns=1, units=2, maxwrite=2, feat='"close"'), 30, 0, None, 2, {"allconc": not q}),
-            ("seq_sim", C(nc=3, ns=2, units=3, maxwrite=3, feat='"swrite","close","fault","readfrom"'), 60, 1, 200 if q else 4000, 3, {})]
+            ("seq_sim", C(nc=3, ns=2, units=3, maxwrite=3, feat='"swrite","close","fault","readfrom"'), 60, 1, 200 if q else 4000, 3, {}),
+            # a singleplex client: the stream's closing frame goes out before the session's closing notice
+            ("seq_single", C(nc=1, ns=2, units=2, maxwrite=2, single="TRUE", feat='"swrite","close"'), 30, 0, 150 if q else 2000, 1, {"singleplex": True})]
     return muxprop.run_property(ctx, LEVEL, ASSUME, KEYS, [], gens, RULE, extra=extra)
 
 
